@@ -204,6 +204,7 @@ func createCompiledRouteHandler(route *ast.Route, bytecode []byte, wsHub *websoc
 					// interpreter path does. Without this a compiled route
 					// accepts any body at all: `< input: NewUser` was enforced
 					// only when a provider injection forced interpreter mode.
+					applyCompiledInputDefaults(route, bodyMap)
 					if err := validateCompiledInput(route, bodyMap); err != nil {
 						ctx.Request.Body.Close()
 						return sendClientError(ctx, err.Error())
@@ -828,6 +829,29 @@ func validateCompiledInput(route *ast.Route, body map[string]interface{}) error 
 	return nil
 }
 
+// applyCompiledInputDefaults fills the fields the request left out with the
+// defaults of the route's declared input type, as the interpreter does with
+// ApplyTypeDefaults before it validates. Only constant defaults can be
+// evaluated here; a field whose default is not constant stays absent.
+func applyCompiledInputDefaults(route *ast.Route, body map[string]interface{}) {
+	named, ok := route.InputType.(ast.NamedType)
+	if !ok || body == nil {
+		return
+	}
+	typeDef, exists := compiledTypeDefs[named.Name]
+	if !exists {
+		return
+	}
+	for _, field := range typeDef.Fields {
+		if _, present := body[field.Name]; present || field.Default == nil {
+			continue
+		}
+		if val, ok := evalLiteralExpr(field.Default); ok {
+			body[field.Name] = val
+		}
+	}
+}
+
 // sendClientError reports a caller mistake with a 4xx, distinct from the
 // generic 500 used for server faults.
 func sendClientError(ctx *server.Context, message string) error {
@@ -939,6 +963,30 @@ func openURL(urlStr string) error {
 // false) for non-literal expressions; callers should skip the default in that
 // case. This keeps the compiled path free of a full interpreter dependency.
 func evalLiteralExpr(expr ast.Expr) (interface{}, bool) {
+	// Array and object literals of constants ([] as the default of a list
+	// field) are constants too.
+	switch e := expr.(type) {
+	case ast.ArrayExpr:
+		arr := make([]interface{}, 0, len(e.Elements))
+		for _, elem := range e.Elements {
+			val, ok := evalLiteralExpr(elem)
+			if !ok {
+				return nil, false
+			}
+			arr = append(arr, val)
+		}
+		return arr, true
+	case ast.ObjectExpr:
+		obj := make(map[string]interface{}, len(e.Fields))
+		for _, field := range e.Fields {
+			val, ok := evalLiteralExpr(field.Value)
+			if !ok {
+				return nil, false
+			}
+			obj[field.Key] = val
+		}
+		return obj, true
+	}
 	lit, ok := expr.(ast.LiteralExpr)
 	if !ok {
 		return nil, false
